@@ -20,6 +20,19 @@ Theorem C06_rejected_unchanged : forall e s r,
 Proof. exact (rejected_unchanged C06_update_decodes_into_copy). Qed.
 Print Assumptions C06_rejected_unchanged.
 
+(** ... so every later request - the same one corrected, a read, a change or a removal by name - is
+    answered as if the rejected request had never been made, and so is every sequence of them (the
+    statement the with / without differential of the check tests on the server) *)
+Theorem C06_as_if_never_made : forall e s r rs,
+  rejected (fst (api_step e s r)) -> status (fst (api_step e s r)) <> status_internal ->
+  api_run e (snd (api_step e s r)) rs = api_run e s rs.
+Proof.
+  intros e s r rs Hrej Hst. destruct (C06_rejected_unchanged e s r Hrej) as [Heq|[Hint _]].
+  - rewrite Heq. reflexivity.
+  - contradiction.
+Qed.
+Print Assumptions C06_as_if_never_made.
+
 Theorem C06_populate_all_or_nothing : forall e s b,
   match b with
   | BJson (JArr items) => snd (dec_populate items) = true \/ populate_valid (fst (dec_populate items)) = false
